@@ -198,6 +198,19 @@ Theorem C04_vle_homogeneous_partial :
 Proof. split; [exact clip1_scale|split; [exact rr2_scale|exact rr_scale]]. Qed.
 Print Assumptions C04_vle_homogeneous_partial.
 
+(* the equilibrium objects of VLE._setup: after ANY history of BubblePoint / DewPoint constructor calls in the process (other
+   packages over the same Chemical objects included) the instance _setup receives for the package (Gamma g, Phi p, PCF f)
+   was built with exactly g, p, f -- the flash uses the activity model of the stream's own package *)
+Theorem C04_setup_objects_of_own_package : forall ks cs g p f i a,
+  fst (C08.Model.cache_new eq_build (snd (C08.Model.cache_run eq_build ([], 0%nat) ks)) (cs, g, p, f)) = Ok (i, a) ->
+  a = (g, p, f).
+Proof. exact setup_gamma_lemma. Qed.
+Print Assumptions C04_setup_objects_of_own_package.
+Example C04_setup_objects_nonvacuous :
+  setup_objects [([0; 1], 1, 1, 1); ([0; 1], 2, 1, 1); ([0; 1], 1, 1, 1)]%nat
+  = [Ok (0, (1, 1, 1)); Ok (1, (2, 1, 1)); Ok (0, (1, 1, 1))]%nat.
+Proof. vm_compute. reflexivity. Qed.
+
 (* non-vacuity *)
 Example C04_rr2_nonvacuous :
   rr2 (1#2) (1#2) 2 (1#2) = Ok ((- (2 * (1#2) + (1#2) * (1#2)) + ((1#2) + (1#2))) / rr2_den (1#2) (1#2) 2 (1#2))
